@@ -405,6 +405,9 @@ def c15_prop():
         H(TIMER, "hist_c15_k3_drop_a4", "hold", replay=("timer_hist_noop", 4 | (1 << 11)), mask=P(15), est_s=250, est_gb=3, timeout=1500,
           bounds="E-HIST timer: K=3 slots (re-creatable), deadlines 0..3, 4 operations of {poll A|B, drop, advance clock 1|2}; "
                  "completion never early, next_expiration() after every operation (no check_expirations in this alphabet)"),
+        H(TIMER, "hist_c15_k2_wide_a3", "hold", replay=("timer_hist_noop", 3 | (2 << 8) | (1 << 11) | (1 << 12)), mask=P(15), est_s=200, est_gb=3, timeout=1500,
+          bounds="E-HIST timer 'wide': K=2 slots, deadlines and clock steps over the FULL u64 range, 3 operations of {poll A|B, drop, advance}; "
+                 "next_expiration() = smallest registered deadline after every operation, completion never early"),
         H(TIMER, "witness_drop_k3_a4", "witness", replay=("timer_hist_noop", 4 | (1 << 11)), mask=PALL, witness_bit=4, est_s=300, est_gb=4, timeout=1500,
           bounds="witness twin: a registered timer is dropped while another stays registered"),
     ]
@@ -659,8 +662,16 @@ PROPS["C08"] = mpmc_prop("C08", 8, [(0, "sr", 0, 4), (1, "sr", 0, 4), (1, "tr", 
                                      "handles dropped in a symbolic order: buffered values survive while a receiver handle is alive")])
 PROPS["C09"] = mpmc_prop("C09", 9, [(0, "sr", 0, 4), (1, "sr", 0, 4), (1, "tr", 0, 4), (2, "tr", 0, 4), (0, "sr", 5, 5), (1, "sr", 3, 5), (2, "sr", 3, 5), (1, "ca", 0, 4),
                                     (1, "sr", 6, 5), (1, "tr", 6, 5), (2, "tr", 6, 6)],
-                        extra_quick=MPMC_WITNESSES[:1])
-PROPS["C10"] = mpmc_prop("C10", 10, [(0, "sr", 0, 4), (1, "sr", 0, 4), (0, "sr", 5, 5), (1, "sr", 4, 5), (1, "cl", 3, 5), (0, "cl", 3, 5), (2, "sr", 4, 5), (1, "tr", 0, 4)],
+                        extra_quick=MPMC_WITNESSES[:1] + [
+                            H(MPMC, "zst_fixedheap_c2", "hold", replay=("mpmc_zst_fixedheap", 2), mask=P(9), est_s=15, est_gb=1,
+                              bounds="capacity bound with a ZERO-SIZED payload over FixedHeapBuf (VecDeque reports capacity usize::MAX): capacity 2, "
+                                     "4 try_send/try_receive operations + one send future"),
+                            H(MPMC, "zst_fixedheap_c0", "hold", replay=("mpmc_zst_fixedheap", 0), mask=P(9), est_s=15, est_gb=1,
+                              bounds="zero-sized payload over FixedHeapBuf, capacity 0: a send never completes without a receiver"),
+                            H(MPMC, "zst_array_c2", "hold", replay=("mpmc_zst_array", 2), mask=P(9), est_s=15, est_gb=1,
+                              bounds="zero-sized payload over ArrayBuf, capacity 2")])
+PROPS["C10"] = mpmc_prop("C10", 10, [(0, "sr", 0, 4), (1, "sr", 0, 4), (0, "sr", 5, 5), (1, "sr", 4, 5), (1, "cl", 3, 5), (0, "cl", 3, 5), (2, "sr", 4, 5), (1, "tr", 0, 4),
+                                     (1, "cl", 4, 5)],
                         extra_quick=MPMC_WITNESSES)
 PROPS["C11"] = c11_prop()
 PROPS["C12"] = recv_chan_prop("C12", 12, [(ONESHOT, "oneshot", "oneshot", "witness_second_receive_n6", 3),
@@ -849,7 +860,13 @@ for _n, _k in (("oneshot_hist_noop", "oneshot"), ("oneshot_hist_check", "oneshot
 def decode_timer(cfg, script):
     it = iter(script)
     n1, n2 = cfg & 15, (cfg >> 4) & 15
-    out = ["clock=0; timer futures #0,#1,#2 with deadlines %s" % [next(it, 0), next(it, 0), next(it, 0)]]
+    wide = (cfg >> 12) & 1
+
+    def val():
+        if not wide:
+            return next(it, 0)
+        return sum(next(it, 0) << (8 * k) for k in range(8))
+    out = ["clock=0; timer futures #0,#1,#2 with deadlines %s" % [val(), val(), val()]]
     alive = [True] * 3
 
     def cheap():
@@ -859,14 +876,14 @@ def decode_timer(cfg, script):
         if op < 6:
             i = op // 2
             if not alive[i]:
-                out.append("re-create timer future #%d with deadline %d" % (i, next(it, 0)))
+                out.append("re-create timer future #%d with deadline %d" % (i, val()))
                 alive[i] = True
             out.append("poll timer-future #%d with waker %s" % (i, "AB"[op % 2]))
         elif op < 9:
             out.append("drop timer-future #%d" % (op - 6))
             alive[op - 6] = False
         elif op == 9:
-            out.append("advance clock by %d" % (1 + next(it, 0)))
+            out.append("advance clock by %d" % (val() if wide else 1 + next(it, 0)))
         else:
             out.append("<byte %d>" % op)
         return True
@@ -917,6 +934,14 @@ DECODERS.update({"mpmc_hist_noop": decode_mpmc, "mpmc_hist_check": decode_mpmc, 
 DECODERS.update({"event_hist_noop": decode_event, "event_hist_check": decode_event})
 
 
+def decode_mpmc_zst(cfg, script):
+    out = ["channel of zero-sized values, capacity %d" % (cfg & 3)]
+    for b in script:
+        out.append("try_send(ZVal)" if b & 1 else "try_receive()")
+    out.append("poll a fresh send future")
+    return out
+
+
 def decode(name, cfg, script):
     f = DECODERS.get(name)
     if not f:
@@ -939,3 +964,7 @@ def match_known(known, prop, harness, decoded, msg):
             return k
     return None
 
+
+
+DECODERS["mpmc_zst_fixedheap"] = decode_mpmc_zst
+DECODERS["mpmc_zst_array"] = decode_mpmc_zst
